@@ -789,14 +789,17 @@ func (s *State) extendFunctionEnv(
 		params = params[:n]
 		// Expending the last argument expecting it to be "..", but any other array will do too.
 		if len(args) > 0 && args[len(args)-1].Type() == object.ARRAY {
-			args = append(args[:len(args)-1], object.Elements(args[len(args)-1])...)
+			// full slice expression: never write into the caller's list, it is also the memoization key.
+			last := len(args) - 1
+			args = append(args[:last:last], object.Elements(args[last])...)
 		}
 		if len(args) >= n {
-			extra = args[n:]
-			args = args[:n]
-			for i, e := range extra {
-				extra[i] = object.Value(e) // like named parameters, `..` holds values not references.
+			// like named parameters, `..` holds values not references (in a list of its own: args is the caller's).
+			extra = object.MakeObjectSlice(len(args) - n)
+			for _, e := range args[n:] {
+				extra = append(extra, object.Value(e))
 			}
+			args = args[:n]
 		}
 		atLeast = " at least"
 	}
